@@ -78,6 +78,8 @@ def static_shapes():
         "vec0_top1": stack(l1, V()), "none_top1": stack(l1, NONE), "box_none": stack(l1, W("box", NONE)),
         "reload_none": stack(l1, W("reload", NONE)), "vec_none": stack(l1, V(NONE)), "pair_none_o": stack(P(NONE, l1)),
         "pair_none_i": stack(P(l1, NONE)), "box_vec0": stack(l1, W("box", V())),
+        "none_bot1": stack(NONE, l1), "vec0_bot1": stack(V(), l1),
+        "pair_none_mid": stack(l1, P(NONE, l2), l3), "pair_vec0_mid": stack(l1, P(V(), l2), l3),
         "vec3": stack(V(l1, l2, l3)), "pair2": stack(P(l2, l1)), "pair3": stack(P(l3, P(l2, l1))), "pair_r": stack(P(P(l3, l2), l1)),
         "vec2_top": stack(l1, V(l2, l3)),
         "cbox0": CW("box", ROOT), "carc0": CW("arc", ROOT), "cbox": CW("box", stack(l1)), "carc": CW("arc", stack(l1)),
@@ -110,7 +112,9 @@ for _n in ("vec0_only",):
     BASELINE[_n] = ("p0", "absent")
 for _n in ("none_top", "none_mid", "none_bot", "vec0_top", "vec0_mid", "vec0_bot"):
     BASELINE[_n] = ("p2", "absent")
-for _n in ("vec0_top1", "none_top1", "box_none", "reload_none", "vec_none", "pair_none_o", "pair_none_i", "box_vec0", "fp_none", "vec0_dyn_top1"):
+for _n in ("pair_none_mid", "pair_vec0_mid"):
+    BASELINE[_n] = ("p3", "absent")
+for _n in ("none_bot1", "vec0_bot1", "vec0_top1", "none_top1", "box_none", "reload_none", "vec_none", "pair_none_o", "pair_none_i", "box_vec0", "fp_none", "vec0_dyn_top1"):
     BASELINE[_n] = ("p1", "absent")
 for _n in ("flt_boxdyn", "flt_arcdyn", "flt_some", "flt_reload", "flt_box_layer", "flt_some_layer", "flt_vec_layer", "flt_inner_box",
            "flt_inner_some", "flt_inner_reload"):
@@ -122,7 +126,8 @@ FILTERED_SHAPES = ["flt", "flt_boxdyn", "flt_arcdyn", "flt_some", "flt_reload", 
                    "flt_inner_box", "flt_inner_some", "flt_inner_reload", "flt2", "flt2_boxdyn", "flt2_reload"]
 MACRO_SHAPES = ["p1", "p2", "p3", "box", "boxdyn", "some", "vec1", "reload", "id_outer", "id_inner", "mid_box", "mid_some", "mid_vec1",
                 "mid_reload", "none_top", "none_mid", "none_bot", "vec0_top", "vec0_mid", "vec0_bot", "none_top1", "vec0_top1",
-                "vec0_dyn_top1", "cbox", "carc", "cboxdyn", "pair_none_o", "pair_none_i", "box_none", "reload_none"]
+                "vec0_dyn_top1", "cbox", "carc", "cboxdyn", "pair_none_o", "pair_none_i", "box_none", "reload_none", "pair_none_mid",
+                "pair_vec0_mid"]
 # shapes whose innermost layer (the one added directly to the root) is an `and_then` pair
 PAIR_ON_ROOT = ("id_outer", "id_inner", "pair_none_o", "pair_none_i", "pair2", "pair3", "pair_r")
 
@@ -136,6 +141,100 @@ def more_permissive(hv, hb):
     if hb is None:
         return False
     return hv > hb
+
+
+# ---------------------------------------------------------------------------------------------- finding F17, exactly
+def _omax(x, y):
+    """cmp::max on Option<LevelFilter> (None < Some)."""
+    if x is None:
+        return y
+    if y is None:
+        return x
+    return max(x, y)
+
+
+def _pick(s_none, inner_none, oh, ih):
+    """Layered::pick_level_hint with the three private flags false."""
+    if s_none:
+        return None if ih is None else _omax(oh, ih)
+    if inner_none and ih == 0:
+        return oh
+    return _omax(oh, ih)
+
+
+def ref_hint_sub(t, strict):
+    """(max_level_hint, carries-the-None-marker) of a subscriber tree.  strict=False: the marker is answered by anything that
+    *contains* a None / empty Vec (what the downcast_raw impls do); strict=True: only by something that *is* nothing but those."""
+    k = t["k"]
+    if k == "leaf":
+        return t["beh"].get("hint"), False
+    if k == "wrap":
+        return ref_hint_sub(t["x"], strict)
+    if k == "none":
+        return 0, True
+    if k == "identity":
+        return None, False
+    if k == "vec":
+        rs = [ref_hint_sub(x, strict) for x in t["xs"]]
+        h = 0
+        for hx, _ in rs:
+            if hx is None:
+                h = None
+                break
+            h = max(h, hx)
+        none = (not rs) or (all(n for _, n in rs) if strict else any(n for _, n in rs))
+        return h, none
+    if k == "pair":
+        ho, no = ref_hint_sub(t["o"], strict)
+        hi, ni = ref_hint_sub(t["i"], strict)
+        return _pick(no, ni, ho, hi), ((no and ni) if strict else (no or ni))
+    if k == "probe":
+        f = t["f"]
+        while f["k"] == "wrap":
+            f = f["x"]
+        return (None if f["k"] == "none" else f["beh"].get("hint")), False
+    raise ValueError(k)
+
+
+def ref_hint(t, registry, strict):
+    """(hint, marker, is-the-Registry-itself) of a collector tree."""
+    k = t["k"]
+    if k == "leaf":
+        return (None, False, True) if registry else (t["beh"].get("hint"), False, False)
+    if k == "wrap":
+        h, n, _ = ref_hint(t["c"], registry, strict)
+        return h, n, False
+    hs, ns = ref_hint_sub(t["s"], strict)
+    hc, nc, is_reg = ref_hint(t["c"], registry, strict)
+    if is_reg:          # inner_is_registry: the outer hint alone; the Registry has nothing to add
+        return hs, ns, False
+    return _pick(ns, nc, hs, hc), ((ns and nc) if strict else (ns or nc)), False
+
+
+def is_absent(t):
+    """A subscriber tree that is nothing but None / empty Vecs (through Box / Some / reload / Vecs)."""
+    k = t["k"]
+    if k == "none":
+        return True
+    if k == "wrap":
+        return is_absent(t["x"])
+    if k == "vec":
+        return all(is_absent(x) for x in t["xs"])
+    return False
+
+
+def has_identity_around_absent(t):
+    """Some and_then pair has an Identity on one side and an absent subscriber on the other (finding F19)."""
+    if isinstance(t, dict):
+        if t.get("k") == "pair":
+            o, i = t["o"], t["i"]
+            if (o.get("k") == "identity" and is_absent(i)) or (i.get("k") == "identity" and is_absent(o)):
+                return True
+        return any(has_identity_around_absent(v) for v in t.values())
+    if isinstance(t, list):
+        return any(has_identity_around_absent(v) for v in t)
+    return False
+
 
 # single wrappers whose table rows are cross-checked method by method: shape -> (row name, trait, baseline, observed leaf id)
 ROW_SHAPES = {
@@ -340,6 +439,27 @@ def sub_leaves(t):
             f = f["x"]
         return [] if f["k"] == "none" else [(f["id"], "F", f.get("beh", {}))]
     raise ValueError(k)
+
+
+def sub_leaves_pof(t):
+    """sub_leaves, but an and_then pair lists its OUTER half first (the order finding F18 is about)."""
+    k = t["k"]
+    if k == "wrap":
+        return sub_leaves_pof(t["x"])
+    if k == "vec":
+        return [x for y in t["xs"] for x in sub_leaves_pof(y)]
+    if k == "pair":
+        return sub_leaves_pof(t["o"]) + sub_leaves_pof(t["i"])
+    return sub_leaves(t)
+
+
+def coll_leaves_pof(t):
+    k = t["k"]
+    if k == "leaf":
+        return []
+    if k == "wrap":
+        return coll_leaves_pof(t["c"])
+    return coll_leaves_pof(t["c"]) + sub_leaves_pof(t["s"])
 
 
 def sub_ask_order(t):
